@@ -665,10 +665,6 @@ func c16RunHistory(r *mon.Run, h c16History, rerun bool) *c16Miss {
 		}
 		// the message must have been taken before a detection timeout was possible
 		if !c16TimerSafe(cur, arms, hi) {
-			if os.Getenv("C16_DEBUG") != "" {
-				e, _ := c16Earliest(arms)
-				fmt.Printf("DEBUG late-inject hist=%d step=%d cur=%v arms=%d late_by=%v handoff=%v since_arm=%v obs=%+v\n", h.Index, si, cur, len(arms), hi.Sub(e), hi.Sub(lo), hi.Sub(arms[0].lo), obs)
-			}
 			return true, inconclusive("m2-harness-late-inject")
 		}
 		seq0 := max(snd.count(), next)
